@@ -85,3 +85,20 @@ pub fn amounts_small(max: usize) -> Vec<usize> { let mut v = vec![1, (max / 2).m
 pub fn amounts(max: usize) -> Vec<usize> {
     if max <= 4 { (1 ..= max).collect() } else { let mut v = vec![1, 2, max / 2, max - 1, max]; v.sort_unstable(); v.dedup(); v }
 }
+
+thread_local! {
+    /// Scratch buffer handed to `AsyncReader::with_buffer` / `AsyncWriter::with_buffer` by the next schedule run
+    /// (None = plain `new`). Set by the random walks: empty, non-empty junk, or a large pre-allocated capacity.
+    pub static PREBUF: std::cell::RefCell<Option<Vec<u8>>> = const { std::cell::RefCell::new(None) };
+}
+pub fn draw_prebuf(g: &mut vcore::Gen) -> &'static str {
+    let (b, label) = match g.below(6) {
+        0 => (Some(g.bytes(40)), "with_buffer(junk)"),
+        1 => (Some(Vec::with_capacity(*g.pick(&[70_000usize, 200_000]))), "with_buffer(large capacity)"),
+        2 => (Some(Vec::new()), "with_buffer(empty)"),
+        _ => (None, "new")
+    };
+    PREBUF.with(|p| *p.borrow_mut() = b);
+    label
+}
+pub fn take_prebuf() -> Option<Vec<u8>> { PREBUF.with(|p| p.borrow_mut().take()) }
